@@ -496,6 +496,28 @@ func runC09(c *ctx) {
 		}
 		want := ren(tpl)
 		if isASCII {
+			// an ASCII variable takes a string as its VALUE - also when the text happens to spell its own name, the name of
+			// another variable of the template, or a keyword
+			if r.Chance(1, 2) {
+				nn = old
+			} else if r.Chance(1, 2) {
+				nn = vars[r.Intn(len(vars))]
+			}
+			fits := false
+			var chk func(x *ref.Item)
+			chk = func(x *ref.Item) {
+				if x.Kind == ref.A && x.AVar == old {
+					fits = len(nn) >= x.AMin && (x.AMax == -1 || len(nn) <= x.AMax)
+				}
+				for _, ch := range x.Children {
+					chk(ch)
+				}
+			}
+			chk(tpl)
+			if fits {
+				c.Class("text-value-that-spells-a-name")
+				c09Eval(c, c09Case{Tpl: tpl, Sub: map[string]ref.Val{old: {Str: []byte(nn), IsS: true}}})
+			}
 			return
 		}
 		var node, filled, direct ast.ItemNode
@@ -587,7 +609,7 @@ func runC09(c *ctx) {
 			}
 		}
 	}
-	c.Required = []string{"shared-template-filled-by-several-goroutines", "rename-by-string-value", "total-assignment", "partial-assignment", "empty-assignment", "out-of-domain-values", "refused-by-both", "split-into-2", "split-into-3", "message-level", "message-observed-before-fill", "fill-in-item-with-its-own-variable", "unfilled-ellipsis-and-unknown-ellipsis-key", "near-miss-unknown-key"}
+	c.Required = []string{"shared-template-filled-by-several-goroutines", "rename-by-string-value", "text-value-that-spells-a-name", "total-assignment", "partial-assignment", "empty-assignment", "out-of-domain-values", "refused-by-both", "split-into-2", "split-into-3", "message-level", "message-observed-before-fill", "fill-in-item-with-its-own-variable", "unfilled-ellipsis-and-unknown-ellipsis-key", "near-miss-unknown-key"}
 }
 
 func replayC09(c *ctx, raw json.RawMessage) {
